@@ -594,6 +594,7 @@ func RunClean(o *hx.Out, g *hx.Rng, tier string) {
 func RunStall(o *hx.Out, g *hx.Rng, tier string) {
 	o.Res.Rule = baseRule + "stalled reader: pause point/length, receive window 1..64, loss masks on WASK/WINS/ACK (and data) during and after the pause, with and without congestion control"
 	w := &world{o: o, g: g, tier: tier}
+	w.fixedStall()
 	for i := 0; i < scaled(tier, 12, 400); i++ {
 		w.stalledReader()
 	}
